@@ -60,12 +60,13 @@ impl<'a, P: Pe<'a>> Exception<'a, P> {
 	}
 	/// Finds the index of the function for the given program counter.
 	pub fn index_of(&self, pc: Rva) -> std::result::Result<usize, usize> {
+		// The closure returns the ordering of the record relative to `pc`; `EndAddress` is exclusive.
 		self.image.binary_search_by(|rf| {
 			if pc < rf.BeginAddress {
-				Ordering::Less
-			}
-			else if pc > rf.EndAddress {
 				Ordering::Greater
+			}
+			else if pc >= rf.EndAddress {
+				Ordering::Less
 			}
 			else {
 				Ordering::Equal
